@@ -275,12 +275,12 @@ def _el_at(case, x):
 def job_class(job):
     outs = [s["o"] for e in job["flat"]["elems"] for s in e["steps"]]
     return (job["prog"].get("family", ""), "fail" in outs, any(o in ERRORISH for o in outs), len(job["prog"]["features"]) > 1,
-            bool(job["fault"][0]), bool(job["cfg"]["dry"]))
+            bool(job["fault"][0]))
 
 
 def thin(jobs, quota, rnd):
     """round robin over the classes (family, has failing step, has erroring/undefined step, several features, hook
-    fault, dry-run): rare classes -- several features with failures and errors and a hook fault -- are kept first"""
+    fault): rare classes -- several features with failures and errors and a hook fault -- are kept first"""
     if len(jobs) <= quota:
         return list(jobs)
     classes = {}
